@@ -995,8 +995,13 @@ def run_case(case, ch: Choices) -> RunResult:
             # accepted configuration spelling must not reject that configuration
             proc_env = {"PYTHONWARNINGS": "error::DeprecationWarning"}
             res.bump("env.deprecation_warnings_as_errors")
+        # how the tool was launched: the console script, or "python -m ariadne_codegen" (the working directory - for projects that
+        # rely on the default target path, the directory holding the generated package - is then on the module search path)
+        as_module = p["as_module"] if "as_module" in p else ch.chance("env.launched_as_module", 1, 3)
+        if as_module:
+            res.bump("env.launched_as_python_dash_m")
         r = genrun.run_child(root, ctx.argv, mat["targets"], env=ctx.env, env_unset=ctx.env_unset, pre_runs=pre_runs,
-                             timeout=90 if not pre_runs else 200, proc_env=proc_env, http=http)
+                             timeout=90 if not pre_runs else 200, proc_env=proc_env, http=http, cwd_on_sys_path=bool(as_module))
         if r.get("harness_failure"):
             raise RuntimeError("child failed: %s" % r.get("child_stderr"))
         after = _project_snapshot(root)
@@ -1083,14 +1088,22 @@ def plan(tier, base_seed) -> Plan:
                 priors = priors + ["absent_parent"]
             for pr in priors:
                 enum.append((w, fname, pr))
+    # a project that relies on the default target path (the package lands in the working directory), launched both ways
+    extra = [("W21-default-target-package-path", f_, pr_, am_) for f_ in ("control:no_fault", "control:reordered_keys", "control:unknown_keys")
+             for pr_ in ("previous_generation", "user_files", "absent") for am_ in (True, False)]
+    extra = extra if tier != "quick" else [e_ for e_ in extra if e_[3] or e_[2] == "previous_generation"][:8]
+    enum += extra
     n_enum = len(enum)
     n_drawn = 120 if tier == "quick" else 1500
 
     def case(i):
         if i < n_enum:
-            w, fname, pr = enum[i]
-            return {"id": "enum-%s-%s-%s" % (w, fname, pr), "seed": derive_seed(base_seed, PROPERTY, "enum", i),
-                    "params": {"corpus": w, "fault": fname, "prior": pr}}
+            w, fname, pr = enum[i][:3]
+            params = {"corpus": w, "fault": fname, "prior": pr}
+            if len(enum[i]) > 3:
+                params["as_module"] = enum[i][3]
+            return {"id": "enum-%s-%s-%s%s" % (w, fname, pr, "-as-module" if params.get("as_module") else ""),
+                    "seed": derive_seed(base_seed, PROPERTY, "enum", i), "params": params}
         j = i - n_enum
         return {"id": "drawn-%d" % j, "seed": derive_seed(base_seed, PROPERTY, "drawn", j), "params": {}}
 
